@@ -5,7 +5,17 @@ comparec / comparef (exact value) and cmpeq (Compare==0 iff Equal on the emitted
 from vlib import common
 
 PLUGINS = ["equal", "compare", "hash"]
-OPS = {"compare", "comparec", "comparef", "cmpeq"}
+OPS = {"compare", "comparec", "comparef", "cmpeq", "cmpeqv"}
+F40 = ("compare does not use a Compare method that takes its argument by value when the value sits behind a pointer (or is the "
+       "top-level struct value itself): it compares field by field there, while derived Equal uses the type's Equal method")
+
+
+def classify(op, impl, model, spec):
+    # F40's witness class: `Compare == 0 iff Equal` on a type that reaches a value-parameter Compare method
+    f = op.split(None, 4)
+    if f[2] == "cmpeqv" and impl == "false" and model == "false":
+        return "F40"
+    return None
 
 
 def nontrivial(f, impl, model, spec):
@@ -14,7 +24,7 @@ def nontrivial(f, impl, model, spec):
 
 def oracle(f, impl):
     # ops on types with user methods carry no spec= column: the range clause still applies
-    if f[2] == "cmpeq":
+    if f[2] in ("cmpeq", "cmpeqv"):
         return impl == "true"
     return impl in ("-1", "0", "1")
 
@@ -24,11 +34,20 @@ def run(rep):
                        "the value pool, aliased pairs, single-position mutations in both orders; distinct = distinct (op, type, pair) "
                        "lines containing a composite; the answer compared is the exact integer")
     rep.assumptions += ["sort.Slice / sort.Strings / sort.Ints / sort.Float64s sort correctly (the model sorts map keys itself)",
-                        "user-declared Compare methods are not in the corpus", "NaN-free values"]
+                        "user-declared Equal/Compare methods: `Compare == 0 iff Equal` is checked where every reachable type declares both or neither","NaN-free values"]
     common.proof_part(rep, "C03", thorough_checker=(rep.tier == "thorough"))
     info = common.prepare_corpus(rep.tier, rep.seed, PLUGINS)
     rep.cov["corpus"] = info["stats"]
-    common.compare_corpus(rep, info, OPS, nontrivial=nontrivial, oracle=oracle)
+    hits = common.compare_corpus(rep, info, OPS, nontrivial=nontrivial, oracle=oracle, classify=classify)
+    import json
+    import os
+    kf = {f.get("id"): f for f in json.load(open(os.path.join(common.VERIF, "known_findings.json")))["findings"]}
+    for k, op in sorted((hits or {}).items()):
+        if kf.get(k, {}).get("status") == "known":
+            rep.known.append("%s %s (replayed: %s)" % (k, F40, op.strip()[:200]))
+        else:
+            rep.violation("emitted code disagrees with the specification (%s; not listed as a known finding) on %s" % (k, op.strip()[:300]),
+                          {"corpus_seed": rep.seed, "op": op.strip(), "finding_class": k}, True)
 
 
 def replay(rep, path):
